@@ -1,1 +1,145 @@
-From PAV Require Import Model.C03.
+(* C03 -- Masked PSF blurring equals true 2-D convolution restricted to the mask.
+   Statements only; every proof is [exact <lemma of Proofs/C03.v>].  All theorems are about the executable
+   model of Model/C03.v instantiated at the reals ([ROps]); the same Gallina terms are executed at exact
+   rationals ([QOps]) against autoarray/operators/convolver.py by the correspondence run.
+   Notation: [unmasked m] = the mask's pixels in slim (row-major) order; [bmask c] = the blurring mask built
+   by the convolver; [combined m bm img bimg] = the native image holding img on the mask, bimg on the blurring
+   region and zero elsewhere; [conv_full N K t] = sum_{a,b} K[a][b] * N(t + half - (a,b)) (flipped, centred
+   kernel, N zero outside the frame). *)
+From Coq Require Import ZArith Reals List Bool.
+From PAV Require Import Base.Res Base.NumOps Base.Sum Model.C03 Model.C03Lib Proofs.C03.
+Import ListNotations.
+Local Open Scope Z_scope.
+
+(* ---- the slim index table: -1 at masked pixels, position in the slim order at unmasked pixels ---- *)
+Theorem C03_mask_index_array_is_slim_position : forall m q d, rectb m = true -> inframe m q = true ->
+  if getZ true m q then getZ (-1) (mask_index_array m) q = -1
+  else 0 <= getZ (-1) (mask_index_array m) q /\
+       (Z.to_nat (getZ (-1)%Z (mask_index_array m) q) < length (unmasked m))%nat /\
+       nth (Z.to_nat (getZ (-1) (mask_index_array m) q)) (unmasked m) d = q.
+Proof. exact midx_spec. Qed.
+
+(* ---- T1: image + blurring image: every unmasked pixel gets the full convolution of the combined image ---- *)
+Theorem C03_convolve_is_conv_full : forall m (K : list (list R)) c (img bimg : list R) k,
+  rectb m = true -> @convolver_init ROps m K = Ok c ->
+  length img = length (unmasked m) -> length bimg = length (unmasked (bmask c)) -> (k < length (unmasked m))%nat ->
+  nth k (@convolve ROps c img bimg) 0%R =
+  @conv_full ROps (@combined ROps m (bmask c) img bimg) K (nth k (unmasked m) (0, 0)).
+Proof. exact convolve_is_conv_full. Qed.
+
+(* the same as an equality of slim arrays, the blurring region given as a set (the form the correspondence
+   run evaluates on the implementation's output) *)
+Theorem C03_convolve_spec_form : forall m (K : list (list R)) c (img bimg : list R),
+  rectb m = true -> @convolver_init ROps m K = Ok c ->
+  length img = length (unmasked m) -> length bimg = length (unmasked (blur_region m (rows K / 2) (cols K / 2))) ->
+  @convolve ROps c img bimg =
+  map (@conv_full ROps (@combined ROps m (blur_region m (rows K / 2) (cols K / 2)) img bimg) K) (unmasked m).
+Proof. exact convolve_spec_form. Qed.
+
+(* the blurring mask built by the constructor is exactly: masked pixels within (kh/2, kw/2) of an unmasked one *)
+Theorem C03_blurring_mask_is_region : forall m (K : list (list R)) c, @convolver_init ROps m K = Ok c ->
+  bmask c = blur_region m (rows K / 2) (cols K / 2).
+Proof. exact convolver_bmask_is_blur_region. Qed.
+
+(* ---- T2: without a blurring image: convolution of the image that is zero outside the mask ---- *)
+Theorem C03_no_blurring_is_conv_of_masked_image : forall m (K : list (list R)) c (img : list R) k,
+  rectb m = true -> @convolver_init ROps m K = Ok c ->
+  length img = length (unmasked m) -> (k < length (unmasked m))%nat ->
+  nth k (@convolve_no_blurring ROps c img) 0%R =
+  @conv_full ROps (@combined ROps m (bmask c) img []) K (nth k (unmasked m) (0, 0)).
+Proof. exact no_blurring_is_conv_of_masked_image. Qed.
+
+(* ---- T3: mapping matrix: every column is the operator applied to that column (any real entries: the
+        skipped entries are exactly the zeros), hence the full convolution of each column; linearity ---- *)
+Theorem C03_convolve_matrix_columnwise : forall c (M : list (list R)) j, (j < length (hd [] M))%nat ->
+  @column ROps (@convolve_matrix ROps c M) j = @convolve_no_blurring ROps c (@column ROps M j).
+Proof. exact convolve_matrix_columnwise. Qed.
+Theorem C03_convolve_matrix_is_conv_full : forall m (K : list (list R)) c (M : list (list R)) j,
+  rectb m = true -> @convolver_init ROps m K = Ok c ->
+  length M = length (unmasked m) -> (j < length (hd [] M))%nat ->
+  @column ROps (@convolve_matrix ROps c M) j =
+  map (@conv_full ROps (@combined ROps m (bmask c) (@column ROps M j) []) K) (unmasked m).
+Proof. exact convolve_matrix_is_conv_full. Qed.
+Theorem C03_operator_is_linear : forall m (K : list (list R)) c a b (u v : list R),
+  rectb m = true -> @convolver_init ROps m K = Ok c ->
+  length u = length (unmasked m) -> length v = length (unmasked m) ->
+  @convolve_no_blurring ROps c (@lincomb ROps a u b v) =
+  @lincomb ROps a (@convolve_no_blurring ROps c u) b (@convolve_no_blurring ROps c v).
+Proof. exact convolve_no_blurring_linear. Qed.
+
+(* ---- T4: only the values on the mask and its blurring region enter ---- *)
+Theorem C03_outside_irrelevant : forall m c (g1 g2 : list (list R)),
+  (forall q, In q (unmasked m ++ unmasked (bmask c)) -> @img_fun ROps g1 q = @img_fun ROps g2 q) ->
+  @convolve ROps c (@slim_of ROps g1 (unmasked m)) (@slim_of ROps g1 (unmasked (bmask c))) =
+  @convolve ROps c (@slim_of ROps g2 (unmasked m)) (@slim_of ROps g2 (unmasked (bmask c))).
+Proof. exact outside_irrelevant. Qed.
+
+(* ---- T5: construction: even kernels rejected; otherwise MaskException iff a footprint leaves the frame ---- *)
+Theorem C03_even_kernel_rejected : forall m (K : list (list R)),
+  @convolver_init ROps m K = Raise KernelException <-> (rows K mod 2 = 0 \/ cols K mod 2 = 0).
+Proof. exact even_kernel_rejected. Qed.
+Theorem C03_footprint_outside_rejected : forall m (K : list (list R)), oddb (rows K) = true -> oddb (cols K) = true ->
+  (@convolver_init ROps m K = Raise MaskException <-> footprints_in m (rows K) (cols K) = false).
+Proof. exact footprint_outside_rejected. Qed.
+Theorem C03_convolver_init_cases : forall m (K : list (list R)),
+  match @convolver_init ROps m K with
+  | Raise e => if oddb (rows K) && oddb (cols K) then footprints_in m (rows K) (cols K) = false /\ e = MaskException
+               else e = KernelException
+  | Ok c => oddb (rows K) && oddb (cols K) = true /\ footprints_in m (rows K) (cols K) = true /\
+            n_image c = length (unmasked m) /\ length (blurring_frames c) = length (unmasked (bmask c))
+  end.
+Proof. exact convolver_init_cases. Qed.
+
+(* ---- T6: the whole-frame convolution (scipy convolve2d(mode="same") contract = conv_full of the native
+        image), slimmed by the mask, equals the masked convolution of the native image's values on the mask
+        and on the blurring region -- whatever the native image holds elsewhere; zero residual ---- *)
+Theorem C03_whole_frame_agrees : forall m (K : list (list R)) c (g : list (list R)),
+  rectb m = true -> @convolver_init ROps m K = Ok c ->
+  @convolved_array ROps m g K =
+  @convolve ROps c (@slim_of ROps g (unmasked m)) (@slim_of ROps g (unmasked (bmask c))).
+Proof. exact whole_frame_agrees. Qed.
+Theorem C03_zero_residual : forall m (K : list (list R)) c (g : list (list R)) k,
+  rectb m = true -> @convolver_init ROps m K = Ok c ->
+  (nth k (@convolved_array ROps m g K) 0 -
+   nth k (@convolve ROps c (@slim_of ROps g (unmasked m)) (@slim_of ROps g (unmasked (bmask c)))) 0 = 0)%R.
+Proof. exact zero_residual. Qed.
+
+(* the public method (own odd-kernel check, no footprint condition): even kernels rejected, otherwise the
+   full convolution of the native image at the unmasked pixels; and it agrees with the convolver *)
+Theorem C03_whole_frame_method : forall m (g : list (list R)) (K : list (list R)),
+  @convolved_array_checked ROps m g K =
+  if oddb (rows K) && oddb (cols K) then Ok (map (@conv_full ROps (@img_fun ROps g) K) (unmasked m))
+  else Raise KernelException.
+Proof. exact whole_checked_cases. Qed.
+Theorem C03_whole_frame_method_agrees : forall m (K : list (list R)) c (g : list (list R)),
+  rectb m = true -> @convolver_init ROps m K = Ok c ->
+  @convolved_array_checked ROps m g K =
+  Ok (@convolve ROps c (@slim_of ROps g (unmasked m)) (@slim_of ROps g (unmasked (bmask c)))).
+Proof. exact whole_checked_agrees. Qed.
+
+(* ---- non-vacuity: a 4x5 frame, L-shaped mask of three pixels, asymmetric signed 3x3 kernel ---- *)
+Definition ex_m : mask := [[true; true; true; true; true]; [true; false; false; true; true];
+                           [true; true; false; true; true]; [true; true; true; true; true]].
+Definition ex_K : list (list R) := [[1; 2; -3]; [4; 5; 6]; [-7; 8; 9]]%R.
+Example C03_hyps_satisfiable :
+  rectb ex_m = true /\ oddb (rows ex_K) = true /\ oddb (cols ex_K) = true /\ footprints_in ex_m (rows ex_K) (cols ex_K) = true /\
+  unmasked ex_m = [(1, 1); (1, 2); (2, 2)] /\
+  (exists c, @convolver_init ROps ex_m ex_K = Ok c /\
+             unmasked (bmask c) = [(0,0);(0,1);(0,2);(0,3);(1,0);(1,3);(2,0);(2,1);(2,3);(3,1);(3,2);(3,3)]) /\
+  footprints_in [[false; true]; [true; true]] 3 3 = false.
+Proof.
+  repeat split; try (vm_compute; reflexivity).
+  pose proof (C03_convolver_init_cases ex_m ex_K) as H.
+  destruct (@convolver_init ROps ex_m ex_K) as [c|e] eqn:E.
+  - exists c. split; [reflexivity|]. rewrite (C03_blurring_mask_is_region ex_m ex_K c E). vm_compute. reflexivity.
+  - exfalso. vm_compute in H. destruct H as [H _]. discriminate H.
+Qed.
+
+Print Assumptions C03_mask_index_array_is_slim_position.
+Print Assumptions C03_convolve_is_conv_full. Print Assumptions C03_convolve_spec_form.
+Print Assumptions C03_blurring_mask_is_region. Print Assumptions C03_no_blurring_is_conv_of_masked_image.
+Print Assumptions C03_convolve_matrix_columnwise. Print Assumptions C03_convolve_matrix_is_conv_full.
+Print Assumptions C03_operator_is_linear. Print Assumptions C03_outside_irrelevant.
+Print Assumptions C03_even_kernel_rejected. Print Assumptions C03_footprint_outside_rejected.
+Print Assumptions C03_convolver_init_cases. Print Assumptions C03_whole_frame_agrees. Print Assumptions C03_zero_residual.
+Print Assumptions C03_whole_frame_method. Print Assumptions C03_whole_frame_method_agrees.
